@@ -193,7 +193,7 @@ def w_scan(arg):
 
 def run(out, drv, info):
     quick = out.tier == 'quick'
-    n_sym, n_scan = (150, 180) if quick else (1500, 1800)
+    n_sym, n_scan = (300, 360) if quick else (1500, 1800)
     out.rule = ('cases: (a) symbolic history = encrypted settings × 5–9 ops of add-key (shared / independent) / snapshot / delete / clean by up to 4 keys on the real '
                 'Repository with tagged adapters, parsed and compared with sym.run + classified by Public/nameKeyed; (b) real-cipher scan = every (cipher, key size) × '
                 'every hash × history with 1–3 keys, 1–3 snapshots, delete/clean.  non-trivial: ≥ 1 snapshot with a note, ≥ 2 files, ≥ 2 keys; distinct = hash of the '
